@@ -26,6 +26,8 @@ pub enum Item {
     Raw { id: i32, #[serde(with = "hexbytes")] body: Vec<u8> },
     /// the previous frame again
     Repeat,
+    /// an Encryption Response built from the server's Encryption Request (if one was seen), but dishonest
+    Enc(EncResp),
 }
 
 #[derive(Clone, Debug, Serialize, Deserialize)]
@@ -188,6 +190,10 @@ fn run_case(case: &Case) -> (sim::SimOutcome, Vec<Step>, bool, u64, u64) {
                         Some(f) => f.clone(),
                         None => (0x00, vec![]),
                     },
+                    Item::Enc(variant) => {
+                        let p = c.encryption_response(variant, &secret16).unwrap_or(Pkt::EncryptionResponse { secret: vec![1, 2, 3], token: vec![4, 5, 6] });
+                        (p.id(), p.body())
+                    }
                     Item::Legal => {
                         let p = match &st {
                             St::AwaitHandshake => Pkt::Handshake { protocol: 770, host: case.host.clone(), port: case.port, next: case.intent },
@@ -604,6 +610,13 @@ impl Check for C06 {
             2 => (prop_oneof![0x08i32..0x80, proptest::sample::select(vec![-1i32, 0x7f, 0x80, 0x3fff, i32::MAX, 5, 6, 7])], proptest::collection::vec(any::<u8>(), 0..20)).prop_map(|(id, body)| Item::Raw { id, body }),
             1 => (0i32..8, proptest::collection::vec(any::<u8>(), 0..30)).prop_map(|(id, body)| Item::Raw { id, body }),
             2 => Just(Item::Repeat),
+            2 => prop_oneof![
+                (0u8..32).prop_map(EncResp::TokenPrefix),
+                (0u16..256).prop_map(EncResp::TokenFlip),
+                proptest::collection::vec(any::<u8>(), 32..=32).prop_map(EncResp::WrongToken),
+                Just(EncResp::PlainToken),
+                Just(EncResp::ForeignKey),
+            ].prop_map(Item::Enc),
             1 => proptest::collection::vec(any::<u8>(), 0..40).prop_map(|data| { let mut w = rc::W::new(); w.string("minecraft:brand").raw(&data); Item::Raw { id: 0x02, body: w.0 } }),
             1 => proptest::option::of(proptest::collection::vec(any::<u8>(), 0..40)).prop_map(|p| { let mut w = rc::W::new(); w.string("some:cookie").bool(p.is_some()); if let Some(p) = p { w.bytes(&p); } Item::Raw { id: 0x01, body: w.0 } }),
         ];
@@ -666,6 +679,6 @@ impl Check for C06 {
         ]
     }
     fn sample(&self, case: &Case) -> Value {
-        json!({"intent": case.intent, "secret": case.cfg.secret.is_some(), "items": case.items.iter().map(|i| match i { Item::Pkt(p) => format!("Pkt:{}", p.kind()), Item::Raw { id, body } => format!("Raw:{id:#x}/{}B", body.len()), o => format!("{o:?}") }).collect::<Vec<_>>(), "status": case.adapters.status, "auth": case.adapters.auth})
+        json!({"intent": case.intent, "secret": case.cfg.secret.is_some(), "items": case.items.iter().map(|i| match i { Item::Pkt(p) => format!("Pkt:{}", p.kind()), Item::Enc(e) => format!("Enc:{e:?}").chars().take(24).collect(), Item::Raw { id, body } => format!("Raw:{id:#x}/{}B", body.len()), o => format!("{o:?}") }).collect::<Vec<_>>(), "status": case.adapters.status, "auth": case.adapters.auth})
     }
 }
